@@ -1,6 +1,7 @@
 Require Import Coq.Strings.String.
+Require Import Props.C18.
 Require Import Base.Bytes Gen.BuilderTab Gen.NetConsts Net.Frame Builder.Builder Builder.BuilderProofs.
-Require Import Wire.Layout Wire.Customs Wire.LayoutProofs Wire.CustomProofs Wire.Packet Wire.PacketProofs Gen.Packets Props.C18.
+Require Import Wire.Layout Wire.Customs Wire.LayoutProofs Wire.CustomProofs Wire.Packet Wire.PacketProofs Gen.Packets.
 Local Open Scope N_scope.
 Check c18_isi_carries_last_set_or_default : forall ops,
   let i := isi_of (build ops) in
@@ -25,8 +26,10 @@ Check c18_handshake_frame_roundtrip : forall ops fr rest,
   pindom (isi_pval (isi_of b)) = true ->
   frame_encode (b_mode b) (isi_pval (isi_of b)) = Ok fr ->
   frame_decode (b_mode b) (fr ++ rest) = Got (isi_pval (isi_of b)) rest /\ wf_frame (b_mode b) fr.
+Check c18_setters_touch_only_their_own_option : footprints_tied = true.
 Print Assumptions c18_isi_carries_last_set_or_default.
 Print Assumptions c18_flag_setter_changes_only_its_bit.
 Print Assumptions c18_setters_match_flags.
 Print Assumptions c18_mode_and_proto.
 Print Assumptions c18_handshake_frame_roundtrip.
+Print Assumptions c18_setters_touch_only_their_own_option.
